@@ -317,7 +317,7 @@ def gen_links(rng, desc):
                 (name, ldoc, lid, sect) = rng.choice(labels)
                 sty = rng.choice(["#", "#", "bare", "project:#"])
                 written = name
-                if rng.random() < 0.15:
+                if rng.random() < 0.15 and name.isascii():     # case folding is modelled for ASCII only
                     written = name.upper() if rng.random() < 0.5 else name.capitalize()
                 form = "auto" if sty == "project:#" and rng.random() < 0.6 else "inline"
                 dest = {"#": "#" + written, "bare": written, "project:#": "project:#" + written}[sty]
@@ -380,7 +380,9 @@ def gen_links(rng, desc):
             else:                                          # ---- quirk spellings: model correspondence only
                 tgt = rng.choice(docs)
                 p = tgt["docname"] + tgt["ext"]
-                q = rng.choice(["//" + p, "///" + p, "", ".", "..", "/", p + "/", "../" * 5 + tgt["docname"],
+                # ('//' + non-ASCII would make markdown-it's normalizeLink punycode the "host name" of the fallback id)
+                q = rng.choice(["//" + (p if p.isascii() else "a/one.md"), "///" + p, "", ".", "..", "/", p + "/",
+                                "../" * 5 + tgt["docname"],
                                 "foo:bar", "c:" + p, "./" + p + "#a#b", posixpath.dirname(p) or "a", "Project:" + p])
                 add(src, "inline", q, {"kind": "quirk"})
 
